@@ -241,6 +241,12 @@ func (pConn *PFCPConn) Shutdown() {
 	// Cleanup all sessions in this conn
 	for _, sess := range pConn.store.GetAllSessions() {
 		pConn.upf.SendMsgToUPF(upfMsgTypeDel, sess.PacketForwardingRules, PacketForwardingRules{})
+
+		if err := releaseAllocatedIPs(pConn.upf.ippool, &sess); err != nil {
+			logger.PfcpLog.Errorln("session IP dealloc failed:", err)
+		}
+
+		releaseAllocatedTEIDs(pConn.upf.fteidGenerator, &sess)
 		pConn.RemoveSession(sess)
 	}
 
